@@ -3704,6 +3704,22 @@ impl Zeroconf {
     }
 
     fn exec_command_resolve(&mut self, instance: String, try_count: u16) {
+        // This follow-up was scheduled for a browse that listed `instance`. If no open
+        // browse lists it any more (e.g. `stop_browse`), there is nothing left to ask for.
+        let wanted = self.cache.all_ptr().iter().any(|(ty_domain, records)| {
+            self.service_queriers.contains_key(ty_domain)
+                && records.iter().any(|r| {
+                    r.record
+                        .any()
+                        .downcast_ref::<DnsPointer>()
+                        .is_some_and(|ptr| ptr.alias() == instance)
+                })
+        });
+        if !wanted {
+            self.pending_resolves.remove(&instance);
+            return;
+        }
+
         let pending_query = self.query_unresolved(&instance);
         let max_try = 3;
         if pending_query && try_count < max_try {
